@@ -256,8 +256,9 @@ func (f *TimeBucketInfo) GetVariableRecordLength() int32 {
 	f.once.Do(f.initFromFile)
 
 	if f.recordType == VARIABLE && f.variableRecordLength == 0 {
-		// Variable records use the raw element sizes plus a 4-byte trailer for interval ticks
-		f.variableRecordLength = int32(f.getFieldRecordLength()) + intervalTicksLenBytes
+		// Variable records use the raw element sizes plus a 4-byte trailer for interval ticks.
+		// (computed on every call: caching it here raced between concurrent readers and writers)
+		return int32(f.getFieldRecordLength()) + intervalTicksLenBytes
 	}
 	return f.variableRecordLength
 }
@@ -354,7 +355,11 @@ func (f *TimeBucketInfo) readHeader(path string) (err error) {
 func (f *TimeBucketInfo) load(hp *Header, path string) {
 	f.version = hp.Version
 	f.description = string(bytes.Trim(hp.Description[:], "\x00"))
-	f.Year = int16(hp.Year)
+	if f.Year == 0 {
+		// the catalog already set the year from the file name and reads it without waiting for
+		// the (lazy, possibly concurrent) header load
+		f.Year = int16(hp.Year)
+	}
 	f.Path = filepath.Clean(path)
 	f.IsRead = true
 	f.timeframe = time.Duration(hp.Timeframe)
